@@ -71,4 +71,27 @@ def loadedOfMode? : String → Option Loaded
   | "fail" => some (.failed "new")
   | _ => none
 
+/-- What the server sees of the FIRST request a started client writes, as far as the client's session decides it
+(network.go `sendPacket`, messages.go `(*Encrypted).Serialize` / `(*Unencrypted).Serialize`):
+
+      e.PutRawBytes(utils.AuthKeyHash(client.GetAuthKey()))     -- auth_key_id = SHA1(auth key)[12:20]
+      … salt | session id | msg id | seq no | length | body, encrypted under client.GetAuthKey()
+
+An encrypted client labels the message with the id DERIVED FROM THE KEY it encrypts with — the key-hash field it
+keeps next to the key (loaded from the session's `hash`, any bytes) plays no part —, puts its salt in front and
+talks to its address. A client that is not encrypted writes plain text (auth_key_id = 0): the key exchange.
+`sha1` is a parameter. -/
+structure FirstMessage where
+  plain : Bool
+  keyId : Bytes
+  salt : Int
+  addr : Bytes
+  deriving Repr, DecidableEq
+
+def keyIdOf (sha1 : Bytes → Bytes) (key : Bytes) : Bytes := ((sha1 key).drop 12).take 8
+
+def Client.firstMessage (sha1 : Bytes → Bytes) (c : Client) : FirstMessage :=
+  if c.encrypted then { plain := false, keyId := keyIdOf sha1 c.authKey, salt := c.serverSalt, addr := c.addr }
+  else { plain := true, keyId := zeros 8, salt := 0, addr := c.addr }
+
 end Mtv.Session
